@@ -8,6 +8,13 @@ BASE_NOTE = ("Trusted base: go/ssa construction, the engine's instruction semant
 CLAIMED = {
  "C01": dict(text="Every feasible path of the real codec/block/table writer and reader inside the harness bounds is executed symbolically; the round-trip assertions are discharged by z3 for all values of the symbolic payload bytes, update indices, limits and configurations (bounds per harness in evidence). Bounded model checking: exhaustive inside the bounds, silent outside.", ref="5/C01"),
  "C02": dict(text="The seek key (every byte and every length within the bound, for reflogs also every 64-bit update index) is symbolic; the real writer builds the table and its indexes, the real reader seeks, and the suffix-of-scan oracle is asserted on every path. Exhaustive over the key space for the listed table shapes (0..3 index levels, multi-block top level, sections following an index), silent outside.", ref="5/C02"),
+ "C03": dict(text="The real merge code (priority queue, shadow skipping, deletion suppression, seek) runs over stub tables holding every subset/multiplicity of a small key universe with symbolic payloads and a fully symbolic seek key; the newest-wins overlay model is asserted on every path. Real tables under the merge are exercised by C07/C11.", ref="5/C03"),
+ "C07": dict(text="Stack.writeCompact is executed symbolically on in-memory stacks of tables written by the real writer, for every choice of table contents from a small universe (creates, updates, deletions, symrefs, peeled refs, reflog entries and reflog deletions) and every contiguous range; the stack view before, after and after a nested compaction is compared with the overlay model. The filesystem path of compaction is covered by the stack checks (C04/C06).", ref="5/C07"),
+ "C11": dict(text="RefsFor on real tables (indexed, unindexed, omitted position lists, multi-block object index) and on merged stacks is compared with a filter of the scan, with object ids symbolic in the bytes that decide the abbreviated id length, for every query class (present, peeled, absent).", ref="5/C11"),
+ "C12": dict(text="One inductive step of the name validator from an arbitrary conflict-free live set (menu of prefix-related names) and an arbitrary transaction of additions and deletions; validateRefname on all short byte strings. Histories of any length are covered as long as the live set stays within the bound.", ref="5/C12"),
+ "C13": dict(text="writeCompact with a symbolic expiry configuration (three arbitrary 64-bit limits) over stacks with symbolic entry times: the surviving entries are asserted equal to the filter model field by field and the refs unchanged, on every path.", ref="5/C13"),
+ "C14": dict(text="An independent decoder written from the format description is executed symbolically on the bytes the real writer emits (symbolic small tables and concrete multi-level shapes); every structural requirement of the format is an assertion, and the decoded records must equal the input. Symmetric writer/reader changes that the repo's own round-trip cannot see are caught here.", ref="5/C14"),
+ "C17": dict(text="log2 for all 64-bit values; the segment chooser on all size vectors up to length 5/6 with symbolic mantissas per size class; the depth and rewrite bounds for N identical-size transactions under the additive size model with the size symbolic. Real-payload workloads in the thousands are outside reach (stated).", ref="5/C17"),
  "C18": dict(text="Every decoder entry point is run on an arbitrary (fully symbolic) buffer of bounded length; index/slice/nil/divide/allocation panics and step-budget overruns are implicit assertions decided by z3 on every path. Hostile deflate streams and longer files are outside the bound.", ref="5/C18"),
 }
 NOT_YET = "check not built yet in this session (work in progress); planned per DESIGN.md section 5"
